@@ -34,6 +34,9 @@ from .types.qfixed import *  # noqa: F403, F401
 
 MAX_TRUTH_TABLE_SIZE = 20
 
+# namespace where the source strings given to qlassf are executed
+_USER_NS: Dict[str, Any] = {}
+
 
 def in_ipynb():
     import sys
@@ -301,8 +304,15 @@ class QlassF(QCircuitWrapper):
         assert isinstance(fun_ast.body[0], ast.FunctionDef)
 
         if isinstance(f, str):
-            exec(f, globals())
-        original_f = eval(fun_ast.body[0].name) if isinstance(f, str) else f
+            # execute the source in a namespace of its own (seeded with this module's names, so
+            # that the qlasskit types are visible): a user function must not overwrite names of
+            # the library (flatten, reduce, ast2ast, ...)
+            if len(_USER_NS) == 0:
+                _USER_NS.update(globals())
+            exec(f, _USER_NS)
+            original_f = _USER_NS[fun_ast.body[0].name]
+        else:
+            original_f = f
 
         def _do_translate(fun_ast, original_f):
             # print(ast.dump(fun_ast, indent=4))
